@@ -16,8 +16,8 @@
   every order / multiplicity in which the store returns the rows (`pipeline_sound`).  The last step, text — the rendered,
   module-stripped annotation evaluated with the names the stub provides — is covered for TypedDict-free emitted types
   (`pipeline_text_sound`, through C11's `rendered_denotes_partial`), which is every emitted type at the default size limit 0
-  (`default_pipeline_text_sound`); for types with generated TypedDict classes it is evaluated on every generated stub by
-  the C11 and C01 checks, not proved.
+  (`default_pipeline_text_sound`), and for every size limit with the generated classes of the stub as a class environment
+  (`pipeline_text_sound_td`, through C11's `rendered_denotes`).
 -/
 import MTVerif.Props.C07
 import MTVerif.Props.C08
@@ -129,6 +129,48 @@ theorem pipeline_text_sound (h : Hier)
     ∃ t', evalE ns (stripE mods (renderE nm (positionType h cfg k (decodeAll env rows)))) = some t' ∧
       ∀ v ∈ vs, conforms h.sub true t' v = true := by
   obtain ⟨t', he, hs⟩ := MT.C11.rendered_denotes_partial h.sub true ns nm mods _ hnoTD hnames
+  refine ⟨t', he, fun v hv => ?_⟩
+  rw [hs v]
+  exact pipeline_sound h htrans hbase hrefl env nm cfg k vs hwv hstor rows hrows v hv
+
+theorem rewriteChain_wf (h : Hier) : ∀ (rs : List RW) (t : Ty), t.wf = true → (rewriteChain h rs t).wf = true
+  | [], _, hw => hw
+  | r :: rs, t, hw => by
+      simp only [rewriteChain, List.foldl_cons]
+      exact rewriteChain_wf h rs _ (MT.rewrite_wf h r t hw)
+
+/-- the emitted type is well-formed (its TypedDicts have distinct keys) -/
+theorem positionType_wf (h : Hier) (env : Env) (nm : Names) (cfg : RwCfg) (k : Nat) (vs : List Val) (hwv : wfL vs = true)
+    (hstor : ∀ t ∈ getTypes k vs, t.storable env nm = true)
+    (rows : List Json) (hrows : ∀ j, j ∈ rows ↔ j ∈ (getTypes k vs).map (encodeTy nm)) :
+    (positionType h cfg k (decodeAll env rows)).wf = true := by
+  unfold positionType
+  apply rewriteChain_wf
+  apply shrink_wf
+  intro t ht
+  exact getTypes_wf k vs hwv t
+    ((decodeAll_mem env nm _ (fun t ht => ⟨hstor t ht, getTypes_normal k vs t ht⟩) rows hrows t).mp ht)
+
+open MT.Render in
+/-- C01 with the last step included, for every size limit: the annotation *text* of the position — anonymous TypedDicts replaced
+    by references to generated classes (`renderT`), module prefixes stripped — evaluated in a stub namespace `ns` with class
+    environment `cenv` in which every generated class of this annotation is what its name denotes (`ClassesIn`) and every other
+    name denotes what was rendered (`namesOkT`) — the hypotheses of C11's `rendered_denotes` — is a type that admits every
+    observed value. -/
+theorem pipeline_text_sound_td (h : Hier)
+    (htrans : ∀ a b c, h.sub a b = true → h.sub b c = true → h.sub a c = true)
+    (hbase : ∀ c b, h.bases c = [b] → h.sub c b = true) (hrefl : ∀ c, h.sub c c = true)
+    (env : Env) (nm : Names) (cfg : RwCfg) (k : Nat) (vs : List Val) (hwv : wfL vs = true)
+    (hstor : ∀ t ∈ getTypes k vs, t.storable env nm = true)
+    (rows : List Json) (hrows : ∀ j, j ∈ rows ↔ j ∈ (getTypes k vs).map (encodeTy nm))
+    (ns : NS) (sm : Ty → List (List String)) (cenv : List ClassDef) (mods : List (List String)) (hint : String) (n : Nat)
+    (hd : tdDepth (positionType h cfg k (decodeAll env rows)) ≤ n)
+    (hcl : ClassesIn cenv (classesT nm sm hint (positionType h cfg k (decodeAll env rows))))
+    (hnames : namesOkT ns (hasC cenv) nm sm mods (positionType h cfg k (decodeAll env rows)) = true) :
+    ∃ t', evalT ns cenv n (stripE mods (renderT nm hint (positionType h cfg k (decodeAll env rows)))) = some t' ∧
+      ∀ v ∈ vs, conforms h.sub true t' v = true := by
+  obtain ⟨t', he, hs⟩ := MT.C11.rendered_denotes h.sub true ns nm sm cenv mods hint _ n hd
+    (positionType_wf h env nm cfg k vs hwv hstor rows hrows) hcl hnames
   refine ⟨t', he, fun v hv => ?_⟩
   rw [hs v]
   exact pipeline_sound h htrans hbase hrefl env nm cfg k vs hwv hstor rows hrows v hv
